@@ -200,6 +200,12 @@ def run(ctx):
     # slow devices with whole-command limits expiring at every point of an exchange (also inside a message being written)
     scns += [scen.gen_slow(ctx.rng) for _ in range(n)]
     sesscheck.check_scenarios(ctx, scns, (oracles.o_c02,), "api-streams")
+    # a message cut in the middle by a write-side failure over a short-writing transport, then a new connection: every connection's byte stream is whole messages
+    from units import c12
+    fs = []
+    for _ in range(max(2, n // 8)):
+        fs += c12.gen_faulted_short(ctx.rng)
+    sesscheck.check_scenarios(ctx, fs, (oracles.o_c02, oracles.o_locks), "fault-short")
     # concurrent senders: header and payload of one message must not be separated by another thread's/task's message
     from units import conc
     conc.conc_sessions(ctx, int((20 if ctx.tier == "quick" else 300) * ctx.budget))
@@ -217,6 +223,17 @@ def search(ctx, disagreements, proofs):
         from units import sesscheck
         scns = [ctx.rng.choice([scen.gen_mixed, scen.gen_push, scen.gen_handshake, scen.gen_short_writes])(ctx.rng) for _ in range(int(60 * ctx.budget))]
         sesscheck.check_scenarios(ctx, scns, (oracles.o_c02,), "api-streams")
+    if len(ctx.report.prop_failures) == before:
+        import oracles
+        from units import c12, sesscheck
+        fs = []
+        for _ in range(max(4, int(6 * ctx.budget))):
+            fs += c12.gen_faulted_short(ctx.rng)
+        sesscheck.check_scenarios(ctx, fs, (oracles.o_c02, oracles.o_locks), "fault-short")
+    if len(ctx.report.prop_failures) == before:
+        from units import conc
+        conc.conc_sessions(ctx, int(30 * ctx.budget))
+        conc.conc_two_devices(ctx, int(20 * ctx.budget))
     fails = ctx.report.prop_failures[before:]
     return fails[0] if fails else None
 
